@@ -738,6 +738,13 @@ func evaluate(s *Scenario, st *runStats) (fail *Failure) {
 		st.Logical["yield_steps"] += int64(obs.Steps)
 		st.Outcome = mix64(obs.Steps ^ uint64(obs.Reads)<<40 ^ uint64(obs.Writes)<<20 ^ uint64(obs.Callbacks))
 		if obs.MaxRatio > st.MaxStepRatio {
+			w := s.clone()
+			w.Note = fmt.Sprintf("stage %s used %.4f of its step budget (%d-byte document)", obs.MaxStage, obs.MaxRatio, len(s.Doc))
+			if len(w.Doc) > 400 {
+				w.Doc = w.Doc[:400]
+			}
+			w.Renders, w.Prelude = nil, nil
+			st.Worst = w
 			st.MaxStepRatio = obs.MaxRatio
 		}
 		if obs.LimitHit {
